@@ -593,6 +593,192 @@ class TranscriptSequence(Contract):
 
 
 # ----------------------------------------------------------------------------
+# on-disk annotation: the loading cache of GenePointerDict / TranscriptPointerDict
+# ----------------------------------------------------------------------------
+GP = 'moPepGen/gtf/GTFPointer.py'
+B_ = z3.BoolSort()
+M_ = z3.DeclareSort('Model')
+
+
+class DequeModel:
+    """collections.deque of keys: cells arr[lo..hi)"""
+    def __init__(self, e, name='dq'):
+        self.lo, self.hi = e.int(f'{name}_lo'), e.int(f'{name}_hi')
+        self.arr = e.array(f'{name}_arr')
+
+    def sym_len(self, I):
+        return self.hi - self.lo
+
+    def sym_method(self, I, name, args, kwargs):
+        if name == 'appendleft':
+            self.lo = self.lo - 1
+            self.arr = z3.Store(self.arr, self.lo, args[0])
+            return None
+        if name == 'append':
+            self.arr = z3.Store(self.arr, self.hi, args[0])
+            self.hi = self.hi + 1
+            return None
+        if name == 'pop' and not args:
+            if not I.e.branch(self.hi - self.lo > 0, 'deque non-empty'):
+                I.raise_('IndexError', 'pop from an empty deque')
+            self.hi = self.hi - 1
+            return self.arr[self.hi]
+        if name == 'popleft':
+            if not I.e.branch(self.hi - self.lo > 0, 'deque non-empty'):
+                I.raise_('IndexError', 'pop from an empty deque')
+            self.lo = self.lo + 1
+            return self.arr[self.lo - 1]
+        raise Unsupported(f'deque.{name}')
+
+
+class CacheModel:
+    """dict key -> loaded model, as membership predicate + value function (SSA)"""
+    def __init__(self, e, name='cache'):
+        self.e = e
+        self.mem = z3.Function(e.fresh_name(f'{name}_has'), I_, B_)
+        self.val = z3.Function(e.fresh_name(f'{name}_val'), I_, M_)
+
+    def sym_contains(self, I, key):
+        return self.mem(key)
+
+    def sym_getitem(self, I, key):
+        if not I.e.branch(self.mem(key), 'key cached'):
+            I.raise_('KeyError', key)
+        return self.val(key)
+
+    def _update(self, key, present, value=None):
+        e = self.e
+        mem2 = z3.Function(e.fresh_name('cache_has'), I_, B_)
+        val2 = z3.Function(e.fresh_name('cache_val'), I_, M_)
+        x = z3.Int(e.fresh_name('x_c'))
+        e.assume(z3.ForAll([x], mem2(x) == z3.If(x == key, z3.BoolVal(present), self.mem(x))))
+        e.assume(z3.ForAll([x], z3.Implies(x != key, val2(x) == self.val(x))))
+        if value is not None:
+            e.assume(val2(key) == value)
+        self.mem, self.val = mem2, val2
+
+    def sym_setitem(self, I, key, v):
+        self._update(key, True, v)
+
+    def sym_method(self, I, name, args, kwargs):
+        if name == 'pop':
+            key = args[0]
+            if not I.e.branch(self.mem(key), 'evicted key is cached'):
+                if len(args) > 1:
+                    return args[1]
+                I.raise_('KeyError', key)
+            v = self.val(key)
+            self._update(key, False)
+            return v
+        raise Unsupported(f'cache.{name}')
+
+
+class _PointerCache(Contract):
+    """Representation invariant of the loading cache, on every exit (normal and exceptional):
+    the key queue has no duplicates and at most SIZE entries, the cached keys are exactly the queued keys, and every cached
+    value is the model loaded from that key's pointer.  By induction over the access history: any order and number of
+    lookups (including failing ones) returns, for every valid key, the model its pointer loads."""
+    props = ('C11',)
+    size_name = 'GENE_DICT_CACHE_SIZE'
+    cls = 'GenePointerDict'
+    declared_raises = ['KeyError', '<load failure>']
+
+    def ri(self, st, dq, cache, tag):
+        i, j, k = z3.Ints(f'ri_i{tag} ri_j{tag} ri_k{tag}')
+        inq = lambda x: z3.And(dq.lo <= x, x < dq.hi)
+        return [(f'queue-length-within-cache-size', z3.And(dq.hi - dq.lo >= 0, dq.hi - dq.lo <= st.size)),
+                (f'queued-keys-distinct', z3.ForAll([i, j], z3.Implies(z3.And(inq(i), inq(j), i != j), dq.arr[i] != dq.arr[j]))),
+                (f'every-queued-key-is-cached', z3.ForAll([i], z3.Implies(inq(i), cache.mem(dq.arr[i])))),
+                (f'every-cached-key-is-queued', z3.ForAll([k], z3.Implies(cache.mem(k), z3.Exists([i], z3.And(inq(i), dq.arr[i] == k))))),
+                (f'cached-values-are-the-loaded-models', z3.ForAll([k], z3.Implies(cache.mem(k), z3.And(st.known(k), cache.val(k) == st.load(k)))))]
+
+    def setup(self, I):
+        e = I.e
+        st = types.SimpleNamespace()
+        st.size = I.eval_const(I.repo.modules[GP], I.repo.modules[GP].consts[self.size_name])
+        st.known = z3.Function('key_has_pointer', I_, B_)
+        st.load = z3.Function('model_loaded_from_pointer_of', I_, M_)
+        st.dq, st.cache = DequeModel(e), CacheModel(e)
+        for _, f in self.ri(st, st.dq, st.cache, '0'):
+            e.assume(f)
+        st.key = e.int('key')
+        st.obj = SymObj(self.cls, _cache=st.cache, _cached_keys=st.dq)
+        st.args = [st.obj, st.key]
+        self._cur = st
+        return st
+
+    @property
+    def models(self):
+        c = self
+
+        def inst(reg):
+            def get_pointer(I, o, a, k):
+                st = c._cur
+                if not I.e.branch(st.known(a[0]), 'key has a pointer'):
+                    I.raise_('KeyError', a[0])
+                return SymObj('PointerStub', key=a[0], is_protein_coding=I.e.bool('ptr_coding'), source='GENCODE')
+            reg.method_(c.cls, 'get_pointer', get_pointer)
+
+            def load(I, o, a, k):
+                st = c._cur
+                if I.e.branch(I.e.bool('load_fails'), 'pointer.load() fails'):
+                    I.raise_('<load failure>', 'io')
+                return LoadedModel(st.load(o.fields['key']))
+            reg.method_('PointerStub', 'load', load)
+        return (inst,)
+
+    def check_ri(self, I, st, where):
+        for nm, f in self.ri(st, st.dq, st.cache, '1'):
+            I.e.prove(f'C11/pointer-cache/{where}/{nm}', f)
+
+    def post_return(self, I, st, ret):
+        t = ret.term if isinstance(ret, LoadedModel) else ret
+        I.e.prove('C11/pointer-cache/return/the-model-loaded-from-this-key', z3.And(st.known(st.key), t == st.load(st.key)))
+        self.check_ri(I, st, 'return')
+
+    def post_raise(self, I, st, exc):
+        if exc.cls == 'KeyError':
+            I.e.prove('C11/pointer-cache/raise/KeyError-only-for-a-key-without-pointer', z3.Not(st.known(st.key)))
+        self.check_ri(I, st, 'raise')
+
+
+class LoadedModel:
+    """the annotation model object returned by pointer.load(): attribute stores are allowed, identity = the term"""
+    def __init__(self, term):
+        self.term = term
+        self.attrs = {}
+
+    def sym_setattr(self, I, name, v):
+        self.attrs[name] = v
+
+    def sym_getattr(self, I, name):
+        if name not in self.attrs:
+            self.attrs[name] = LoadedModel(self.term)
+        return self.attrs[name]
+
+
+def _unwrap_loaded(fn):
+    def setitem(self, I, key, v):
+        return fn(self, I, key, v.term if isinstance(v, LoadedModel) else v)
+    return setitem
+
+
+CacheModel.sym_setitem = _unwrap_loaded(CacheModel.sym_setitem)
+
+
+@register
+class GenePointerCache(_PointerCache):
+    path, qualname = GP, 'GenePointerDict.__getitem__'
+
+
+@register
+class TranscriptPointerCache(_PointerCache):
+    path, qualname = GP, 'TranscriptPointerDict.__getitem__'
+    size_name = 'TX_DICT_CACHE_SIZE'
+    cls = 'TranscriptPointerDict'
+
+
+# ----------------------------------------------------------------------------
 # Native side (replay + CPython cross-check of the spec functions)
 # ----------------------------------------------------------------------------
 from pyvc.native import NativeCheck
@@ -705,4 +891,106 @@ class NativeCoords(NativeCheck):
         return (tuple(map(tuple, inp['exons'])), inp['strand']) if len(inp['exons']) >= 2 else None
 
 
-NATIVE = [NativeCoords()]
+def synthetic_gtf(n_genes, rng, non_ascii=False):
+    """GTF text with n_genes genes (one or two transcripts each, 1-3 exons), GENCODE-style attributes"""
+    lines = ['##description: synthetic annotation' + (' \u00e9\u00fc\u4e2d' if non_ascii else '')]
+    pos = 100
+    truth = {}
+    for g in range(n_genes):
+        strand = rng.choice('+-')
+        gid = f'ENSG{g:05d}.1'
+        txs = []
+        gstart = pos
+        for t in range(rng.randint(1, 2)):
+            tid = f'ENST{g:05d}{t}.1'
+            exons = []
+            p_ = gstart + rng.randint(0, 5)
+            for _ in range(rng.randint(1, 3)):
+                ln = rng.randint(5, 30)
+                exons.append((p_, p_ + ln))
+                p_ += ln + rng.randint(3, 20)
+            txs.append((tid, exons))
+        gend = max(e for _, ex in txs for _, e in ex)
+        name = f'GENE{g}' + ('\u00df' if non_ascii and g % 3 == 0 else '')
+        ga = f'gene_id "{gid}"; gene_type "protein_coding"; gene_name "{name}";'
+        lines.append(f'chr1\tHAVANA\tgene\t{gstart + 1}\t{gend}\t.\t{strand}\t.\t{ga}')
+        for tid, exons in txs:
+            ta = f'gene_id "{gid}"; transcript_id "{tid}"; gene_type "protein_coding"; gene_name "{name}"; transcript_type "protein_coding";'
+            lines.append(f'chr1\tHAVANA\ttranscript\t{exons[0][0] + 1}\t{exons[-1][1]}\t.\t{strand}\t.\t{ta}')
+            for a, b in exons:
+                lines.append(f'chr1\tHAVANA\texon\t{a + 1}\t{b}\t.\t{strand}\t.\t{ta}')
+            truth[tid] = (gid, strand, exons)
+        truth[gid] = (gstart, gend, strand, [t for t, _ in txs])
+        pos = gend + rng.randint(10, 40)
+    return '\n'.join(lines) + '\n', truth
+
+
+class NativeOnDisk(NativeCheck):
+    name = 'annotation_on_disk'
+    props = ('C11',)
+    functions = (f'{GP}:GenePointerDict.__getitem__', f'{GP}:TranscriptPointerDict.__getitem__', f'{GP}:iterate_pointer')
+    bounded_for = 'GTF text -> on-disk index -> models: equal to the annotated coordinates for every key, under random access orders with unknown keys'
+    bound = ('synthetic GTF with 14-18 genes (more than the cache size of 10), 1-2 transcripts, 1-3 exons, both strands, with and without '
+             'non-ASCII characters; 60 random lookups per case incl. ~15% unknown keys; quick 6 files, thorough 60')
+    quick_budget_s = 20
+    thorough_budget_s = 120
+
+    def cases(self, rng, tier):
+        for i in range(6 if tier != 'thorough' else 60):
+            yield dict(seed=rng.randrange(10 ** 9), n=rng.randint(14, 18), non_ascii=(i % 2 == 1))
+
+    def from_model(self, model):
+        return dict(seed=1, n=15, non_ascii=False)
+
+    def check(self, inp):
+        import random, tempfile, shutil, os
+        from moPepGen.gtf import GenomicAnnotationOnDisk
+        rng = random.Random(inp['seed'])
+        text, truth = synthetic_gtf(inp['n'], rng, inp['non_ascii'])
+        d = tempfile.mkdtemp(prefix='verif_c11_')
+        try:
+            path = os.path.join(d, 'anno.gtf')
+            with open(path, 'w', encoding='utf-8') as fh:
+                fh.write(text)
+            anno = GenomicAnnotationOnDisk()
+            anno.generate_index(path)
+            keys = list(truth)
+            for step in range(60):
+                if rng.random() < 0.15:
+                    bad = f'NOPE{step}'
+                    table = anno.genes if rng.random() < 0.5 else anno.transcripts
+                    try:
+                        table[bad]
+                        return dict(call=f'lookup of unknown key {bad}', observed='a model', expected='KeyError', signature='unknown-key-found')
+                    except KeyError as ex:
+                        if ex.args and ex.args[0] != bad:
+                            return dict(call=f'lookup of unknown key {bad}', observed=f'KeyError({ex.args[0]!r})', expected=f'KeyError({bad!r})',
+                                        signature='wrong-keyerror')
+                    continue
+                k = rng.choice(keys)
+                try:
+                    if k.startswith('ENSG'):
+                        m = anno.genes[k]
+                        gs, ge, strand, txs = truth[k]
+                        got = (int(m.location.start), int(m.location.end), '+' if m.location.strand == 1 else '-', sorted(m.transcripts))
+                        exp = (gs, ge, strand, sorted(txs))
+                    else:
+                        m = anno.transcripts[k]
+                        gid, strand, exons = truth[k]
+                        got = (m.transcript.gene_id, '+' if m.transcript.strand == 1 else '-',
+                               [(int(x.location.start), int(x.location.end)) for x in m.exon])
+                        exp = (gid, strand, exons)
+                except Exception as ex:
+                    return dict(call=f'lookup #{step} of valid key {k}', observed=f'{type(ex).__name__}: {ex}', expected='the annotated model',
+                                signature='valid-key-lookup-fails')
+                if got != exp:
+                    return dict(call=f'lookup #{step} of {k}', observed=str(got)[:300], expected=str(exp)[:300], signature='model-differs-from-gtf')
+        finally:
+            shutil.rmtree(d, ignore_errors=True)
+        return None
+
+    def nontrivial(self, inp):
+        return (inp['seed'], inp['non_ascii'])
+
+
+NATIVE = [NativeCoords(), NativeOnDisk()]
